@@ -41,7 +41,7 @@ def meta(tier):
     return {
         "rule": f"every cyclic class topology over <= {NMAX[tier]} classes (1-2 links per class, <= n+1 links, edge kinds {cycles.KINDS}, non-root relabelings identified) "
         f"x module styles (from __future__ import annotations / eager with string back references / all classes nested in an outer class) x every root form {cycles.ROOT_FORMS} of every class "
-        f"x depths {DEPTHS[tier][0]}..{DEPTHS[tier][-1]} (payloads given as text so an unconverted level is visible), plus 4 recursive-alias programs; "
+        f"x depths {DEPTHS[tier][0]}..{DEPTHS[tier][-1]} (payloads given as text so an unconverted level is visible), plus 10 recursive-alias programs (string-valued TypeAliasType and PEP 695 `type` statements, also with the alias value as root); "
         "oracle: build within the wall limit; unmarshal(T, wire) same-as the value built directly with the classes; marshal gives the all-plain wire; "
         "round trip; both build orders agree; non-trivial = the call returned; distinct by (topology, style, root, depth, outcome)",
         "bounds": {"classes": NMAX[tier], "depths": DEPTHS[tier]},
@@ -174,15 +174,16 @@ def run_alias(i, tier, res):
     cold.clear_all()
     name, ns = load(src)
     res.programs += 1
-    case = {"kind": "alias", "idx": i, "program": name_}
+    case = {"kind": "alias", "idx": i, "program": name_, "source": src, "root": root}
+    name_tag = name_ + (":pep695" if src.startswith("type ") else "") + (":value-as-root" if root.endswith("__value__") else "")
     try:
-        ann = ns[root]
+        ann = eval(root, ns)  # noqa: S307 - "A" or "A.__value__"
         bm = timed(BUILD_LIMIT, typelib.marshaller, ann)
         bu = timed(BUILD_LIMIT, typelib.unmarshaller, ann)
         res.evals += 2
         for nm, b in (("marshaller", bm), ("unmarshaller", bu)):
             if not b.ok:
-                res.violation(f"C07/alias/{name_}/build/{nm}/{'no-termination' if b.timeout else b.excname}", f"{nm}({root}) of {src!r}: {b!r}", case)
+                res.violation(f"C07/alias/{name_tag}/build/{nm}/{'no-termination' if b.timeout else b.excname}", f"{nm}({root}) of {src!r}: {b!r}", case)
                 return
         for d in depths:
             w, e = cycles.alias_value(name_, d)
@@ -191,15 +192,15 @@ def run_alias(i, tier, res):
             res.outcomes.add(h64("alias", name_, d, "ok" if u.ok else u.excname))
             dclass = "d0" if d == 0 else "d1" if d == 1 else "d2-12" if d <= 12 else "deep"
             if not u.ok:
-                res.violation(f"C07/alias/{name_}/unmarshal/raises:{u.excname}/{dclass}", f"unmarshal({root}, depth {d}) raises {u!r}", dict(case, d=d))
+                res.violation(f"C07/alias/{name_tag}/unmarshal/raises:{u.excname}/{dclass}", f"unmarshal({root}, depth {d}) raises {u!r}", dict(case, d=d))
                 continue
             res.nontrivial.add(h64("alias", name_, d))
             if not same(u.val, e):
-                res.violation(f"C07/alias/{name_}/unmarshal/level-not-converted/{dclass}", f"unmarshal({root}, {short(w, 80)}) = {short(u.val, 120)}, expected {short(e, 120)}", dict(case, d=d))
+                res.violation(f"C07/alias/{name_tag}/unmarshal/level-not-converted/{dclass}", f"unmarshal({root}, {short(w, 80)}) = {short(u.val, 120)}, expected {short(e, 120)}", dict(case, d=d))
             m = call(bm.val, e)
             res.evals += 1
             if not m.ok or not same(m.val, e):
-                res.violation(f"C07/alias/{name_}/marshal/{'raises:' + m.excname if not m.ok else 'value'}/{dclass}", f"marshal(depth {d}) = {m!r}", dict(case, d=d))
+                res.violation(f"C07/alias/{name_tag}/marshal/{'raises:' + m.excname if not m.ok else 'value'}/{dclass}", f"marshal(depth {d}) = {m!r}", dict(case, d=d))
     finally:
         prelude.dropmod(name)
 
